@@ -300,6 +300,13 @@ func (im *impl) handle(c Cmd) (r Reply, err error) {
 				return r, e
 			}
 		}
+	case "prewait":
+		// returns once the pre-attach writer goroutine has written everything
+		select {
+		case <-preAttachDone:
+		case <-time.After(time.Duration(c.N) * time.Millisecond):
+			return r, errors.New("pre-attach writer still blocked")
+		}
 	case "env":
 		r.List = os.Environ()
 	case "lsdir":
@@ -335,6 +342,8 @@ func (im *impl) handle(c Cmd) (r Reply, err error) {
 	}
 	return r, nil
 }
+
+var preAttachDone = make(chan struct{})
 
 // brokered servers we started, so a later command can stop them
 var brokered sync.Map // id -> func()
@@ -661,6 +670,7 @@ func pluginMain(specJSON string) {
 	if len(spec.PreAttach) > 0 {
 		origOut := os.Stdout
 		go func() {
+			defer close(preAttachDone)
 			for os.Stdout == origOut {
 				time.Sleep(200 * time.Microsecond)
 			}
